@@ -5,6 +5,7 @@ EXTENDS HotParamConc, Json
 
 MCRes == {"A", "B"}
 MCOth == {"o"}
+MCOth0 == {}
 MCValues == {"a", "b", "c"}
 \* A: general threshold 1, value a blocked entirely (0), value b may have 2 in flight
 MCRules1 == [A |-> [thr |-> 1, items |-> [a |-> 0, b |-> 2]],
@@ -16,8 +17,16 @@ MCRes1   == {"A"}
 MCRules3 == [A |-> [thr |-> 2, items |-> [a |-> 1]]]
 \* instances for the concurrent admission path (K >= 1): one resource, two values
 MCValues2 == {"a", "b"}
+MCValues1 == {"b"}
 MCRules4 == [A |-> [thr |-> 2, items |-> [a |-> 1]]]       \* (same table as MCRules3, over MCValues2)
 MCRules5 == [A |-> [thr |-> 1, items |-> [b |-> 3]]]
 
 Emit == PrintT(ToJson(h'))
+
+\* Schedule enumeration (K >= 1): with VIEW hview every history is a state of its own, so TLC generates EVERY
+\* interleaving of the check / record / exit steps of MaxOps callers (not one history per abstract state: the real
+\* code may keep more state than the design - e.g. which cells exist - so different schedules reaching the same
+\* design state are different tests).  NoNone restricts the callers to requests that carry the selected argument.
+hview  == vars
+NoNone == \A i \in DOMAIN h' : "v" \in DOMAIN h'[i] => h'[i].v # None
 =============================================================================
